@@ -267,6 +267,12 @@ func casesC17(g *Gen) []*Case {
 		t.files["tpl/sub/deep.tw"] = "PARTIAL-MARK\n\n{{ 7 / 0 }}"
 		t.files["tpl/err.tw"] = "custom error page 50%"
 		t.files["tpl/errfail.tw"] = "ERRPAGE-PARTIAL {{ nosuch2 }}"
+		t.files["tpl/comp.tw"] = "[@slot]"
+		t.files["tpl/lay.tw"] = "<@reserve(\"c\")>"
+		t.files["tpl/dumpfail.tw"] = "PARTIAL-MARK @dump(1, nosuchname)"
+		t.files["tpl/slotfail.tw"] = "PARTIAL-MARK\n@component(\"comp\")@slot<{{ nosuchname }}>@end@end"
+		t.files["tpl/insertfail.tw"] = "@use(\"lay\")@insert(\"c\")PARTIAL-MARK\n\n{{ nosuchname }}@end"
+		t.files["tpl/argfail.tw"] = "PARTIAL-MARK @component(\"comp\", {a: nosuchname})"
 		return t
 	}
 	type page struct {
@@ -284,15 +290,28 @@ func casesC17(g *Gen) []*Case {
 		{"early", false, "", "nosuchname", "1", "early.tw"},
 		{"sub/deep", false, "", "division by zero", "3", "deep.tw"},
 		{"missingpage", false, "", "template not found", "0", "missingpage.tw"},
+		{"dumpfail", false, "", "nosuchname", "1", "dumpfail.tw"},
+		{"slotfail", false, "", "nosuchname", "2", "slotfail.tw"},
+		{"insertfail", false, "", "nosuchname", "3", "insertfail.tw"},
+		{"argfail", false, "", "nosuchname", "1", "argfail.tw"},
 	}
 	for _, debug := range []bool{false, true} {
 		for _, ep := range []string{"", "err", "nopage", "errfail"} {
-			for _, pre := range []string{"", "debugflip", "evs"} {
+			for _, pre := range []string{"", "debugflip", "evs", "fliprender"} {
 				var ops []string
 				var note []string
 				if pre == "debugflip" {
 					ops = append(ops, opNew("tpl", ".tw", ep, !debug))
 					note = append(note, fmt.Sprintf("NewTemplate(debug=%v)", !debug))
+				}
+				if pre == "fliprender" {
+					// the same failures rendered under the other debug setting first
+					ops = append(ops, opNew("tpl", ".tw", ep, !debug))
+					note = append(note, fmt.Sprintf("NewTemplate(debug=%v)", !debug))
+					for _, p := range pages {
+						ops = append(ops, opResp(p.name, data))
+						note = append(note, "Response("+p.name+")")
+					}
 				}
 				ops = append(ops, opNew("tpl", ".tw", ep, debug))
 				note = append(note, fmt.Sprintf("NewTemplate(errorPage=%q, debug=%v)", ep, debug))
